@@ -243,6 +243,41 @@ func c02Consumption(c *Ctx, p *Prog, pi *parserInfo) {
 						}
 					}
 				}
+				// the count may come back from a helper that runs the decoder: there, every return that
+				// hands out the decoder's count lies behind "the decoder produced output"
+				if ex, isEx := n.(*ssa.Extract); isEx && !produced {
+					if call, isCall := ex.Tuple.(*ssa.Call); isCall {
+						if h := call.Call.StaticCallee(); h != nil && h.Pkg == fn.Pkg && len(h.Blocks) > 0 {
+							all, some := true, false
+							for _, r := range returnsOf(h) {
+								res := derefCell(resultOf(r, ex.Index))
+								if k, isK := constInt(res); isK && k == 0 {
+									continue
+								}
+								cnt, isCnt := res.(*ssa.Extract)
+								if !isCnt {
+									all = false
+									continue
+								}
+								some = true
+								okR := false
+								for _, g := range rawGuardsAt(r.Block()) {
+									if bo, okB := g.Cond.(*ssa.BinOp); okB {
+										if e0, okE := bo.X.(*ssa.Extract); okE && e0.Index == 0 && e0.Tuple == cnt.Tuple {
+											if k, isK := constInt(bo.Y); isK && k == 0 && ((bo.Op == token.NEQ && g.Positive) || (bo.Op == token.EQL && !g.Positive) || (bo.Op == token.GTR && g.Positive)) {
+												okR = true
+											}
+										}
+									}
+								}
+								if !okR {
+									all = false
+								}
+							}
+							produced = all && some
+						}
+					}
+				}
 				c.Check(produced, "C02-R9", key, pos, "Next(nSrc): as many bytes as the decoder reports consumed, where it produced output")
 				continue
 			default:
@@ -919,6 +954,27 @@ func isTransformNSrc(v ssa.Value, d int) bool {
 		if x.Index == 1 {
 			if call, ok := x.Tuple.(*ssa.Call); ok && call.Call.IsInvoke() && call.Call.Method.Name() == "Transform" {
 				return true
+			}
+		}
+		// the count handed back by a helper that runs the decoder (`utf, nIn := t.decodeLeading(b)`):
+		// every return gives the decoder's count, or 0 together with "nothing decoded"
+		if call, ok := x.Tuple.(*ssa.Call); ok {
+			if h := call.Call.StaticCallee(); h != nil && call.Parent() != nil && h.Pkg == call.Parent().Pkg && len(h.Blocks) > 0 {
+				some := false
+				for _, r := range returnsOf(h) {
+					if x.Index >= len(r.Results) {
+						return false
+					}
+					res := derefCell(resultOf(r, x.Index))
+					if k, isK := constInt(res); isK && k == 0 {
+						continue
+					}
+					if !isTransformNSrc(res, d+1) {
+						return false
+					}
+					some = true
+				}
+				return some
 			}
 		}
 	case *ssa.Phi:
